@@ -126,16 +126,33 @@ def make_world():
     ns = w.enum('TaskStatus', TASKF, ordered=True)
     w.globals['LOGGER'] = SNamespace('LOGGER', dropped=True)
     w.globals['logging'] = SNamespace('logging', {'DEBUG': 10})
-    w.ref_attrs['Task'] = {'name': 'Ref:Name'}
+    w.ref_attrs['Task'] = {'name': 'Ref:Name', 'rank': 'Int'}
     _add_accessors(EnvModel, list(ns.members))
     w.class_models['Env'] = EnvModel(w)
     w.class_models['DepGraph'] = GraphModel(w)
+    w.class_models['Queue'] = QueueModel(w)
+    w.class_models['QueueScheduling'] = SchedModel(w)
     w.globals['QueueScheduling'] = SClass('QueueScheduling')
     for node in ast.parse(SPEC_DEFS).body:
         w.globals[node.name] = SFunc(node, None, node.name)
     x = z3.Const('n!all', zsort(NAME))
     w.globals['Names'] = SV(T('Set', NAME), z3.K(zsort(NAME), z3.BoolVal(True)))
     w.globals['partial'] = lambda I, f, *a, **k: I.world.lib.b_partial(I, f, *a, **k)
+
+    def isnan(I, x):
+        if x is None:
+            return False
+        x = x if isinstance(x, SV) else lift(x, NUM)
+        if x.typ.kind == 'Opt':
+            from pyvc.values import opt_is_none, opt_get
+            return SV(BOOL, z3.And(z3.Not(opt_is_none(x)), th.is_nan(opt_get(x).t)))
+        return SV(BOOL, th.is_nan(coerce(x, NUM).t))
+
+    def some(I, x):
+        x = x if isinstance(x, SV) else lift(x)
+        return coerce(x, T('Opt', x.typ))
+    w.globals['isnan'] = isnan
+    w.globals['some'] = some
     return w
 
 
@@ -177,6 +194,8 @@ def c_decide_waiting():
                  ('release-iff', '(result == TaskStatus.PENDING) == (not any(bad(old(st(env, h))) for h in hard_deps) and all(final(old(st(env, d))) for d in deps))'),
                  ('else-waiting', 'result == TaskStatus.SKIPPED or result == TaskStatus.PENDING or result == TaskStatus.WAITING'),
                  ('new-status', 'task.name in env.present and same(env.status[task.name], result)'),
+                 ('present-grows', 'all(implies(n in old(env.present), n in env.present) for n in Names)'),
+                 ('new-entries-have-no-clocks', 'all(implies(n in env.present and n not in old(env.present), env.start[n] is None and env.end[n] is None) for n in Names)'),
                  ('frame-others', FRAME_OTHERS),
                  ('frame-clocks', FRAME_CLOCKS)],
         signals={})
@@ -217,6 +236,100 @@ def c_decide():
                                        'and old(end_of(env, d)) is not None and old(end_of(env, d)) <= old(start_of(env, task)) for d in deps), result is None)'),
             # bookkeeping: the returned state is the recorded state; nothing else is written
             ('new-status', 'implies(result is not None, task.name in env.present and same(some(env.status[task.name]), result))'),
+            ('present-grows', 'all(implies(n in old(env.present), n in env.present) for n in Names)'),
+            ('new-entries-have-no-clocks', 'all(implies(n in env.present and n not in old(env.present), env.start[n] is None and env.end[n] is None) for n in Names)'),
             ('frame-others', FRAME_OTHERS),
             ('frame-clocks', FRAME_CLOCKS)],
         signals={})
+
+
+# ---------------------------------------------------------------------------------------
+class QueueModel(ClassModel):
+    '''queue.Queue as a ghost sequence of the items put so far (assumed contract: put appends, never blocks
+    for an unbounded queue; get/task_done/join are used by the worker / execute_tasks units).'''
+    name = 'Queue'
+    fields = {'items': 'Seq[Ref:Task]'}
+
+    def m_put(self, I, q, item):
+        items = I.getfield(q, 'items')
+        if item is None:
+            I.trace.append(('put-sentinel',)) if hasattr(I, 'trace') else None
+            return None
+        new, _ = I.world.lib.mutate(I, items, 'append', [item])
+        I.setfield(q, 'items', new)
+        return None
+
+
+class SchedModel(ClassModel):
+    name = 'QueueScheduling'
+    fields = {'queue': 'Obj:Queue', 'n_workers': 'Int'}
+
+
+DISTINCT_NAMES = 'all(implies(i != j, tasks[i].name != tasks[j].name) for i in range(len(tasks)) for j in range(len(tasks)))'
+CLOCKS_OK = ['all(implies(n in env.present, env.end[n] is None or not isnan(env.end[n])) for n in Names)',
+             'all(implies(n in env.present, env.start[n] is None or not isnan(env.start[n])) for n in Names)']
+RELEASED = ('all(implies(k >= len(old(queue_.items)), st(env, queue_.items[k]) == TaskStatus.PENDING '
+            'and any(queue_.items[k] is tasks[i] for i in range({upto})) '
+            'and all(d.name in env.present and final(st(env, d)) for d in full_graph.dependencies(queue_.items[k])) '
+            'and not any(bad(st(env, h)) for h in hard_graph.dependencies(queue_.items[k]))) '
+            'for k in range(len(queue_.items)))')
+QUEUE_PREFIX = ('len(queue_.items) >= len(old(queue_.items)) and '
+                'all(queue_.items[k] is old(queue_.items)[k] for k in range(len(old(queue_.items))))')
+LEFT_WAITING = 'all(st(env, tasks_left[k]) == TaskStatus.WAITING and any(tasks_left[k] is tasks[i] for i in range({upto})) for k in range(len(tasks_left)))'
+OUTSIDE_UNTOUCHED = ('all(implies(not any(tasks[i].name == n for i in range({upto})), (n in env.present) == (n in old(env.present)) '
+                     'and same(env.status[n], old(env.status[n]))) for n in Names)')
+CLOCKS_KEPT = 'all(implies(n in old(env.present), same(env.start[n], old(env.start[n])) and same(env.end[n], old(env.end[n]))) for n in Names)'
+FINAL_STABLE = ('all(implies(n in old(env.present) and final(old(env.status[n])) and not any(tasks[i].name == n for i in range({upto})), '
+                'n in env.present and same(env.status[n], old(env.status[n]))) for n in Names)')
+# a task considered in this pass is no longer left as it was only if it was released, skipped, kept (None) or left waiting
+DECIDED_ONCE = ('all(implies(i < {upto}, st(env, tasks[i]) == TaskStatus.PENDING or st(env, tasks[i]) == TaskStatus.SKIPPED '
+                'or st(env, tasks[i]) == TaskStatus.WAITING or st(env, tasks[i]) == TaskStatus.DONE) for i in range(len(tasks)))')
+QUEUED_ONCE = ('all(implies(k1 != k2 and k1 >= len(old(queue_.items)) and k2 >= len(old(queue_.items)), queue_.items[k1] is not queue_.items[k2]) '
+               'for k1 in range(len(queue_.items)) for k2 in range(len(queue_.items)))')
+
+
+# tasks come in topological order: a dependency of tasks[i] is not the name of a task considered at or after i
+TOPO_ORDER = ('all(all(implies(j >= i, tasks[j].name != d.name) for j in range(len(tasks))) '
+              'for i in range(len(tasks)) for d in full_graph.dependencies(tasks[i]))')
+
+
+# ghost rank: position in the topological order computed by execute_tasks (contract of topological_sort)
+RANKED = 'all(implies(i < j, tasks[i].rank < tasks[j].rank) for i in range(len(tasks)) for j in range(len(tasks)))'
+DEPS_RANK_LOWER = 'all(all(d.rank < t.rank for d in full_graph.dependencies(t)) for t in tasks)'
+# A-unique-names: distinct tasks of a job have distinct names (enforced by check_unique_task_names, C15)
+UNIQUE_NAMES = ('all(all(implies(d.name == tasks[j].name, d is tasks[j]) for j in range(len(tasks))) for t in tasks for d in full_graph.dependencies(t))'
+                ' and all(implies(tasks[i].name == tasks[j].name, i == j) for i in range(len(tasks)) for j in range(len(tasks)))')
+LEFT_RANKED = ('all(implies(a < b, tasks_left[a].rank < tasks_left[b].rank) for a in range(len(tasks_left)) for b in range(len(tasks_left)))')
+
+
+def c_enqueue():
+    inv = [LEFT_RANKED, 'all(implies(i >= done, tasks_left[a].rank < tasks[i].rank) for a in range(len(tasks_left)) for i in range(len(tasks)))',
+           'all(implies(n in old(env.present), n in env.present) for n in Names)', QUEUE_PREFIX, RELEASED.format(upto='done'), LEFT_WAITING.format(upto='done').replace('tasks_left', 'tasks_left'),
+           OUTSIDE_UNTOUCHED.format(upto='done'), CLOCKS_KEPT,
+           'all(implies(n in env.present, env.end[n] is None or not isnan(env.end[n])) for n in Names)',
+           'all(implies(n in env.present, env.start[n] is None or not isnan(env.start[n])) for n in Names)',
+           'all(implies(i >= done, (tasks[i].name in env.present) == (tasks[i].name in old(env.present)) and same(env.status[tasks[i].name], old(env.status[tasks[i].name]))) for i in range(len(tasks)))',
+           'all(implies(k >= len(old(queue_.items)), any(queue_.items[k] is tasks[i] for i in range(done))) for k in range(len(queue_.items)))']
+    return Contract(
+        QF, 'QueueScheduling._enqueue',
+        params={'self': 'Obj:QueueScheduling', 'tasks': 'Seq[Ref:Task]', 'full_graph': 'Obj:DepGraph', 'hard_graph': 'Obj:DepGraph', 'env': 'Obj:Env'},
+        returns='Seq[Ref:Task]',
+        requires=[RANKED, DEPS_RANK_LOWER, UNIQUE_NAMES,
+                  'all(all(h in full_graph.dependencies(t) for h in hard_graph.dependencies(t)) for t in tasks)'] + CLOCKS_OK,
+        ensures=[('queue-only-grows', QUEUE_PREFIX),
+                 ('C01-queued-tasks-have-final-deps', RELEASED.format(upto='len(tasks)')),
+                 ('left-are-waiting', LEFT_WAITING.format(upto='len(tasks)').replace('tasks_left', 'result')),
+                 ('tasks-outside-the-pass-untouched', OUTSIDE_UNTOUCHED.format(upto='len(tasks)')),
+                 ('clocks-kept', CLOCKS_KEPT),
+                 ('left-keep-their-order', LEFT_RANKED.replace('tasks_left', 'result')),
+                 ('present-grows', 'all(implies(n in old(env.present), n in env.present) for n in Names)')] + [(f'clocks-stay-comparable-{k}', e) for k, e in enumerate(CLOCKS_OK)],
+        signals={},
+        loops={0: LoopSpec('for task in tasks', inv,
+                           vars={'tasks_left': 'Seq[Ref:Task]', 'n_tasks': 'Int', 'env.present': 'Set[Ref:Name]',
+                                 'env.status': 'Fun[Ref:Name,Enum:TaskStatus]', 'env.start': 'Fun[Ref:Name,Opt[Num]]',
+                                 'env.end': 'Fun[Ref:Name,Opt[Num]]', 'queue_.items': 'Seq[Ref:Task]'})})
+
+
+def enqueue_setup(I, scope):
+    '''ghost alias for the work queue so that contracts can name it'''
+    scope.set('queue_', I.getfield(scope.lookup('self'), 'queue'))
